@@ -32,8 +32,7 @@ static void arbitrary_params(ZSTD_DCtx* d)
     d->disableHufAsm = nondet_int();
     d->maxBlockSizeParam = nondet_int();
     d->staticSize = nondet_size();
-    d->streamStage = (ZSTD_dStreamStage)nondet_uint();
-    VASSUME(d->streamStage <= zdss_flush);
+    { unsigned const st = nondet_uint(); VASSUME(st <= zdss_flush); d->streamStage = (ZSTD_dStreamStage)st; }
 }
 
 #ifdef H_GRID
